@@ -112,10 +112,14 @@ Theorem c20_bsp_sizes_positive : forall i,
   bsp_sizes_ok i (bo_queue o) (bo_batch o) = true /\
   (forall b, bsp_batch_expected i (bo_queue o) = Some b -> bo_batch o = b) /\
   bo_delay o = dur_expected (b_opt_delay i) (b_env_delay i) 5000 /\
-  bo_export o = dur_expected (b_opt_export i) (b_env_export i) 30000.
+  bo_export o = dur_expected (b_opt_export i) (b_env_export i) 30000 /\
+  (* the context handed to the exporter: a deadline iff the resolved timeout is positive; a
+     negative, zero or wrapped-around timeout means no deadline, never an expired context *)
+  export_deadline (bo_export o) = deadline_expected (dur_expected (b_opt_export i) (b_env_export i) 30000).
 Proof.
   intros i. destruct (bsp_ok i) as (H1 & H2 & H3). repeat split; try assumption; try apply (bsp_nonneg i).
-  exact (bsp_batch_pinned i).
+  - exact (bsp_batch_pinned i).
+  - cbn zeta. now rewrite H3.
 Qed.
 Print Assumptions c20_bsp_sizes_positive.
 
@@ -124,8 +128,17 @@ Print Assumptions c20_bsp_sizes_positive.
 Theorem c20_blrp_resolution : forall i,
   blrp_config i = blrp_expected i /\
   (let '(q, b) := blrp_config i in
-   1 <= q /\ 1 <= b /\ (blrp_size (r_opt_batch i) (r_env_batch i) <> None -> b <= q))%Z.
-Proof. intros i. split; [exact (blrp_ok i) | exact (blrp_bounds i)]. Qed.
+   1 <= q /\ 1 <= b /\ (blrp_size (r_opt_batch i) (r_env_batch i) <> None -> b <= q))%Z /\
+  (* export timeout: out-of-range values (below 1 ns, wrapped) ignored, option over environment
+     over 30 s; the exporter always gets a context with that deadline, never an expired one *)
+  blrp_export_timeout i = blrp_export_expected i /\ (1 <= blrp_export_timeout i)%Z /\
+  export_deadline (blrp_export_timeout i) = Some (blrp_export_expected i).
+Proof.
+  intros i. destruct (blrp_export_ok i) as [E1 E2].
+  split; [exact (blrp_ok i)|]. split; [exact (blrp_bounds i)|]. split; [exact E1|]. split; [exact E2|].
+  rewrite <- E1. unfold export_deadline. destruct (0 <? blrp_export_timeout i)%Z eqn:E; [reflexivity|].
+  apply Z.ltb_ge in E. lia.
+Qed.
 Print Assumptions c20_blrp_resolution.
 
 (** Span limits: the last limits option (raw as given; legacy with non-positive fields replaced
@@ -196,8 +209,15 @@ Example ex_bsp :
 Proof. vm_compute. reflexivity. Qed.
 
 Example ex_blrp :
-  blrp_config {| r_env_queue := str "10"; r_env_batch := str "30"; r_opt_queue := Some 0%Z; r_opt_batch := None |} = (10, 10)%Z /\
-  blrp_config {| r_env_queue := str "10"; r_env_batch := []; r_opt_queue := None; r_opt_batch := None |} = (10, 512)%Z.
+  blrp_config {| r_env_queue := str "10"; r_env_batch := str "30"; r_opt_queue := Some 0%Z; r_opt_batch := None; r_env_export := []; r_opt_export := None |} = (10, 10)%Z /\
+  blrp_config {| r_env_queue := str "10"; r_env_batch := []; r_opt_queue := None; r_opt_batch := None; r_env_export := []; r_opt_export := None |} = (10, 512)%Z /\
+  blrp_export_timeout {| r_env_queue := []; r_env_batch := []; r_opt_queue := None; r_opt_batch := None; r_env_export := str "-1"; r_opt_export := Some (-5)%Z |} = 30000000000%Z /\
+  blrp_export_timeout {| r_env_queue := []; r_env_batch := []; r_opt_queue := None; r_opt_batch := None; r_env_export := str "4000"; r_opt_export := Some 0%Z |} = 4000000000%Z.
+Proof. repeat split; vm_compute; reflexivity. Qed.
+Example ex_bsp_negative_timeout :
+  let o := bsp_config {| b_env_queue := []; b_env_batch := []; b_env_delay := []; b_env_export := str "-1";
+                         b_opt_queue := None; b_opt_batch := None; b_opt_delay := None; b_opt_export := None |} in
+  bo_export o = (-1000000)%Z /\ export_deadline (bo_export o) = None.
 Proof. split; vm_compute; reflexivity. Qed.
 
 Example ex_sampler :
